@@ -383,7 +383,7 @@ func clampZooms(h pmtiles.HeaderV3, minz, maxz int8) (int8, int8) {
 // clustered source with IDs inside zooms 0..maxZ
 func randClusteredSource(r *core.Rng) (builtArchive, tileSet, pmtiles.Compression) {
 	maxZ := 2 + r.Intn(5)
-	cnt := []int{3, 10, 40, 200, 900}[r.Intn(5)]
+	cnt := []int{3, 10, 40, 200, 900, 900, 2500}[r.Intn(7)]
 	ts := randTileSet(r, cnt, base(uint(maxZ)+1), true, 9)
 	// randTileSet spreads IDs with big jumps; keep as is but inside maxID
 	depth := r.Intn(2)
@@ -411,11 +411,11 @@ type C07 struct{}
 
 func (C07) ID() string { return "C07" }
 func (C07) Rule() string {
-	return "lines `relevant maxz <S intervals> D <entries>` (real RelevantEntries on directories with leaf pointers and runs), `reencode <entries>` (shared offsets, contiguous and back-referencing offsets), `mergecheck num den <ranges> P <plans>` (real MergeRanges; the plans are a certificate the model decides with mergeOK; overfetch as the exact value of a float32 in [0,100]) and `extract maxz' <S> A ic <tiledata> <dirs> # minz maxz bbox` (real pmtiles.Extract from clustered sources — root-only or one leaf level, run lengths, shared contents, both internal compressions — with zoom ranges and bboxes, threads {1,2,4} x overfetch {0,0.3,8} x file/HTTP source: all outputs must be byte-identical and equal the model's restriction); non-trivial = at least 3 ranges/entries; distinct by hash of the line"
+	return "lines `relevant maxz <S intervals> D <entries>` (real RelevantEntries on directories with leaf pointers and runs), `reencode <entries>` (shared offsets, contiguous and back-referencing offsets), `mergecheck num den <ranges> P <plans>` (real MergeRanges; the plans are a certificate the model decides with mergeOK; overfetch as the exact value of a float32 in [0,100]) and `extract maxz' <S> A ic <tiledata> <dirs> # minz maxz bbox` (real pmtiles.Extract from clustered sources — root-only or one leaf level, run lengths, shared contents, both internal compressions — with zoom ranges and bboxes, threads {1,2,4,8} x overfetch {0,0.3,8} x file/HTTP source, incl. 8 threads and 4 HTTP threads without merging: all outputs must be byte-identical and equal the model's restriction); non-trivial = at least 3 ranges/entries; distinct by hash of the line"
 }
 
 func (C07) Gen(r *core.Rng, tier string, emit func(string)) {
-	nHook, nE2E := 1500, 50
+	nHook, nE2E := 1500, 90
 	if tier == "thorough" {
 		nHook, nE2E = 60000, 1500
 	}
@@ -578,7 +578,9 @@ func runExtractConfigs(t []string, cfgs []extractCfg) ([]extractRun, []byte, str
 	return runs, src, ""
 }
 
-var c07Cfgs = []extractCfg{{1, 0, false}, {4, 0.3, false}, {2, 8, false}, {4, 8, true}, {1, 0.3, true}}
+// {8,0} and {4,0,http}: no merging, so every discontiguity is its own download — the configurations in
+// which concurrent range writers actually overlap
+var c07Cfgs = []extractCfg{{1, 0, false}, {4, 0.3, false}, {2, 8, false}, {4, 8, true}, {1, 0.3, true}, {8, 0, false}, {4, 0, true}}
 
 func (C07) RunGo(line string) string {
 	t := strings.Fields(line)
